@@ -34,6 +34,7 @@ enum {
   OP_RECALLOC,       /* a = live index, b = new size (count = 1) */
   OP_EXPAND,         /* a = live index, b = 0: to usable, 1: usable+1 */
   OP_FREE_SIZE,      /* a = live index : mi_free_size / mi_free_aligned variants by parity */
+  OP_FREE_EVERY,     /* a = stride k, b = phase: free every k-th live block (hole patterns) */
   OP_LAST
 };
 
@@ -62,6 +63,7 @@ static void vf_op_str(vf_op_t op, char* buf, size_t n) {
     case OP_RECALLOC:     snprintf(buf, n, "recalloc(#%ld,1,%ld)", op.a, op.b); break;
     case OP_EXPAND:       snprintf(buf, n, "expand(#%ld,usable+%ld)", op.a, op.b); break;
     case OP_FREE_SIZE:    snprintf(buf, n, "free_size(#%ld)", op.a); break;
+    case OP_FREE_EVERY:   snprintf(buf, n, "free_every(%ld,%ld)", op.a, op.b); break;
     default:              snprintf(buf, n, "op%d(%ld,%ld)", op.code, op.a, op.b); break;
   }
 }
@@ -71,7 +73,7 @@ static void vf_op_str(vf_op_t op, char* buf, size_t n) {
 static mi_heap_t* g_heaps[NHEAPS];
 static int        g_default = 0;       /* slot of the current default heap */
 static int        g_dirty = 0;         /* C04 discipline: fill a block with 0xFF before releasing it */
-static int        g_obs_walk = 0, g_obs_owner = 0, g_obs_released = 0;
+static int        g_obs_walk = 0, g_obs_owner = 0, g_obs_released = 0, g_obs_abandoned = 0;
 static int        g_check_errors = 1;  /* secondary oracle: unexpected mi error callback */
 static int        g_threads_used = 0;
 static int        g_pending[NHEAPS + 1];    /* heap slot has (possibly) pending cross-thread frees: C12 claims nothing about extra reports then */
@@ -90,6 +92,7 @@ typedef struct profile_s {
   long hsizes[3];  int nh;
   long ticks[2];   int nt;
   long callocs[3][2]; int nc;
+  int  fillcount, free_every;          /* blocks per fill (default 8); enable free_every(k,phase) ops */
   int  maxlive;                        /* allocation ops disabled above this many live blocks */
   int  free_window;                    /* free(i) enumerated for all i if nlive <= window, else first/last window/2 */
 } profile_t;
@@ -119,6 +122,8 @@ static const profile_t profiles[] = {
     .realloc_al = 1, .rsizes = { 100, 9 * KiB }, .nr = 2, .free_variants = 1, .maxlive = 5, .free_window = 5 },
   /* P6w: heap walk incl. remote frees and abandoned pages, 64-blocks-per-word boundary */
   { .name = "P6w", .msizes = { 1024, 512 }, .nm = 2, .fills = { 1024 }, .nf = 1, .walk = 1, .remote_free = 1, .collect0 = 1, .maxlive = 80, .free_window = 4 },
+  /* P6x: 64 blocks of 1 KiB fill exactly one bitmap word of the walk; 512 B blocks (127 per page) a full word plus a partial one */
+  { .name = "P6x", .msizes = { 1024 }, .nm = 1, .fills = { 1024, 512 }, .nf = 2, .fillcount = 64, .free_every = 1, .walk = 1, .collect0 = 1, .maxlive = 200, .free_window = 2 },
   /* P7t: threads: remote free + abandoned segments + reclaim */
   { .name = "P7t", .msizes = { 8 * KiB, 100 * KiB }, .nm = 2, .remote_free = 1, .thread_alloc = 1, .collect0 = 1, .collect1 = 1, .maxlive = 6, .free_window = 4 },
   /* P8o: option sweep profile (C13): merged alphabet incl. clock ticks */
@@ -208,14 +213,47 @@ static int check_owner(void) {
   }
   return 0;
 }
+/* abandoned walk oracle (C12): blocks left behind by exited threads are reported exactly once, either by
+ * mi_abandoned_visit_blocks or -- if their page was adopted meanwhile -- by the walk of the adopting heap */
+static walk_t g_walk_ab;
+static int check_abandoned(void) {
+  walk_t* w = &g_walk_ab; memset(w, 0, offsetof(walk_t, stop_after)); w->stop_after = 0; w->calls = 0;
+  bool ok = mi_abandoned_visit_blocks(mi_subproc_main(), -1, true, &walk_cb, w);
+  VF_INC(checks);
+  if (!ok) { vf_violation("abandoned-visit-false", "mi_abandoned_visit_blocks returned false although the visitor never did"); return -1; }
+  walk_t* h = &g_walk; memset(h, 0, offsetof(walk_t, stop_after)); h->stop_after = 0; h->calls = 0;
+  for (int k = 0; k < NHEAPS; k++) if (g_heaps[k] != NULL) mi_heap_visit_blocks(g_heaps[k], true, &walk_cb, h);
+  int nforeign = 0;
+  for (int i = 0; i < vf_nlive; i++) if (vf_live[i].heap < 0) {
+    const vf_blk_t* b = &vf_live[i]; int hits = 0; nforeign++;
+    for (int k = 0; k < w->n; k++) { const uint8_t* s = (const uint8_t*)w->blk[k]; if (s <= b->p && b->p + b->usable <= s + w->sz[k]) hits++; }
+    for (int k = 0; k < h->n; k++) { const uint8_t* s = (const uint8_t*)h->blk[k]; if (s <= b->p && b->p + b->usable <= s + h->sz[k]) hits++; }
+    if (hits != 1) { vf_violation("abandoned-walk-missing", "block #%d %p (req %zu) left behind by an exited thread is reported %d times (abandoned visit: %d blocks, heap walks: %d blocks)", i, b->p, b->req, hits, w->n, h->n); return -1; }
+  }
+  for (int k = 0; k < w->n; k++) {
+    const uint8_t* s = (const uint8_t*)w->blk[k]; int owners = 0;
+    for (int i = 0; i < vf_nlive; i++) if (vf_live[i].heap < 0 && s <= vf_live[i].p && vf_live[i].p < s + (w->sz[k] ? w->sz[k] : 1)) owners++;
+    if (owners != 1 && !PENDING(-1)) { vf_violation("abandoned-walk-extra", "mi_abandoned_visit_blocks reports range [%p,+%zu) that holds %d live blocks of exited threads", (void*)s, w->sz[k], owners); return -1; }
+  }
+  if (w->n > 0) VF_INC(nontrivial);
+  if (w->n > 0) VF_INC(counters[4]);
+  /* early stop */
+  if (w->calls >= 2) {
+    walk_t* w2 = &g_walk_ab; memset(w2, 0, offsetof(walk_t, stop_after)); w2->stop_after = 2; w2->calls = 0;
+    bool r = mi_abandoned_visit_blocks(mi_subproc_main(), -1, true, &walk_cb, w2);
+    if (r || w2->calls != 2) { vf_violation("abandoned-walk-stop", "visitor returned false at call 2 but the walk made %d calls and returned %d", w2->calls, (int)r); return -1; }
+  }
+  return 0;
+}
 static int run_observers(void) {
-  if (!g_obs_walk && !g_obs_owner) return 0;
+  if (!g_obs_walk && !g_obs_owner && !g_obs_abandoned) return 0;
   pid_t pid = fork();
   if (pid < 0) { vf_sh->infra_error = 1; return -1; }
   if (pid == 0) {
     int r = 0;
     if (g_obs_owner) r = check_owner();
     if (r == 0 && g_obs_walk) for (int h = 0; h < NHEAPS && r == 0; h++) if (g_heaps[h] != NULL) r = check_walk_heap(h);
+    if (r == 0 && g_obs_abandoned) r = check_abandoned();
     _exit(r == 0 ? 0 : 3);
   }
   int st = 0; waitpid(pid, &st, 0);
@@ -223,6 +261,21 @@ static int run_observers(void) {
   if (WIFEXITED(st) && WEXITSTATUS(st) == 3) return -1;   /* violation already recorded */
   vf_violation("observer-crash", "heap walk / ownership observer died (status 0x%x)", st);
   return -1;
+}
+
+/* ---------------- C13 monitor: purge / decommit / unmap never touch a live block ------------------- */
+static int g_transit = -1;      /* model index of a block that is legitimately being released by the running call */
+static void purge_monitor(int kind, int arg, uintptr_t addr, size_t len) {
+  VF_INC(counters[5]);
+  for (int i = 0; i < vf_nlive; i++) {
+    if (i == g_transit) continue;
+    const vf_blk_t* b = &vf_live[i];
+    uintptr_t lo = (uintptr_t)b->p, hi = lo + (b->usable ? b->usable : 1);
+    if (lo < addr + len && addr < hi) {
+      vf_violation("purge-hits-live", "%s(%p, %zu, %d) overlaps live block #%d [%p,+%zu)", vf_os_kind_name(kind), (void*)addr, len, arg, i, b->p, b->usable);
+      return;
+    }
+  }
 }
 
 /* ---------------- node oracle ------------------------------------------------------------------ */
@@ -261,7 +314,7 @@ static int vf_apply(vf_op_t op) {
       return vf_model_alloc(p, (size_t)op.a, (size_t)op.b, 0, g_default, 1, "mi_zalloc_aligned") < 0;
     }
     case OP_FILL: {
-      for (int k = 0; k < 8; k++) {
+      for (int k = 0; k < (g_prof->fillcount ? g_prof->fillcount : 8); k++) {
         void* p = mi_malloc((size_t)op.a);
         if (vf_model_alloc(p, (size_t)op.a, 0, 0, g_default, 0, "mi_malloc[fill]") < 0) return 1;
       }
@@ -281,6 +334,13 @@ static int vf_apply(vf_op_t op) {
       else mi_free(b.p);
       return 0;
     }
+    case OP_FREE_EVERY: {
+      for (int i = vf_nlive - 1; i >= 0; i--) if ((i % (int)op.a) == (int)op.b) {
+        if (vf_model_check_one(i, "before free") != 0) return 1;
+        vf_blk_t b = vf_live[i]; dirty_block(&b); vf_model_remove_ordered(i); mi_free(b.p);
+      }
+      return 0;
+    }
     case OP_REALLOC: case OP_REZALLOC: case OP_REALLOC_AL: case OP_RECALLOC: {
       int i = (int)op.a; if (i < 0 || i >= vf_nlive) return 0;
       if (vf_model_check_one(i, "before realloc") != 0) return 1;
@@ -289,10 +349,12 @@ static int vf_apply(vf_op_t op) {
       size_t al = (b.align ? b.align : 32);
       void* q;
       const char* what;
+      g_transit = i;
       if (op.code == OP_REALLOC)        { q = mi_realloc(b.p, n); what = "mi_realloc"; }
       else if (op.code == OP_REZALLOC)  { q = (b.align ? mi_rezalloc_aligned(b.p, n, b.align) : mi_rezalloc(b.p, n)); what = "mi_rezalloc"; }
       else if (op.code == OP_RECALLOC)  { q = (b.align ? mi_recalloc_aligned(b.p, 1, n, b.align) : mi_recalloc(b.p, 1, n)); what = "mi_recalloc"; }
       else                              { q = mi_realloc_aligned(b.p, n, al); what = "mi_realloc_aligned"; }
+      g_transit = -1;
       VF_INC(checks);
       if (q == NULL) { vf_violation("null-result", "%s(#%d, %zu) returned NULL", what, i, n); return 1; }
       size_t keep = (b.req < n ? b.req : n);
@@ -405,7 +467,7 @@ static int vf_list_ops(vf_op_t* out, int max) {
     for (int i = 0; i < P->nc; i++) PUSH(OP_CALLOC, P->callocs[i][0], P->callocs[i][1]);
     for (int i = 0; i < P->na; i++) PUSH(OP_ALIGNED, P->asizes[i][0], P->asizes[i][1]);
     for (int i = 0; i < P->nza; i++) PUSH(OP_ZALIGNED, P->zasizes[i][0], P->zasizes[i][1]);
-    if (vf_nlive + 8 <= P->maxlive) for (int i = 0; i < P->nf; i++) PUSH(OP_FILL, P->fills[i], 0);
+    if (vf_nlive + (P->fillcount ? P->fillcount : 8) <= P->maxlive) for (int i = 0; i < P->nf; i++) PUSH(OP_FILL, P->fills[i], 0);
     if (P->thread_alloc) PUSH(OP_THREAD_ALLOC, P->msizes[0], 0);
   }
   /* which live indices are addressed */
@@ -414,6 +476,7 @@ static int vf_list_ops(vf_op_t* out, int max) {
   else { int h = P->free_window / 2; for (int i = 0; i < h; i++) idx[ni++] = i; for (int i = vf_nlive - (P->free_window - h); i < vf_nlive; i++) idx[ni++] = i; }
   for (int k = 0; k < ni; k++) PUSH(OP_FREE, idx[k], 0);
   if (P->free_variants) for (int k = 0; k < ni; k++) PUSH(OP_FREE_SIZE, idx[k], 0);
+  if (P->free_every && vf_nlive >= 8) { PUSH(OP_FREE_EVERY, 2, 0); PUSH(OP_FREE_EVERY, 2, 1); PUSH(OP_FREE_EVERY, 3, 0); PUSH(OP_FREE_EVERY, 5, 2); }
   if (P->remote_free) for (int k = 0; k < ni; k++) PUSH(OP_REMOTE_FREE, idx[k], 0);
   for (int k = 0; k < ni; k++) {
     const vf_blk_t* b = &vf_live[idx[k]];
@@ -489,6 +552,16 @@ static int build_start(const char* s) {
     if (do_op(OP_HEAP_DELETE, 1, 0)) return 1;
     return 0;
   }
+  if (strcmp(s, "S5") == 0) {
+    /* a 4 GiB (two bitmap fields) reserved arena whose first 62 blocks are taken: the next segments land on
+       blocks 62, 63 and then in the second bitmap field */
+    mi_arena_id_t aid = 0;
+    if (mi_reserve_os_memory_ex((size_t)4096 * MiB, false, false, false, &aid) != 0) { fprintf(stderr, "cannot reserve arena\n"); return 2; }
+    mi_memid_t memid;
+    void* blk = _mi_arena_alloc((size_t)62 * MI_ARENA_BLOCK_SIZE, false, false, aid, &memid);
+    if (blk == NULL) { fprintf(stderr, "cannot pre-claim arena blocks\n"); return 2; }
+    return 0;
+  }
   fprintf(stderr, "unknown start state %s\n", s);
   return 2;
 }
@@ -509,6 +582,8 @@ int main(int argc, char** argv) {
   g_dirty = vf_flag(argc, argv, "--dirty");
   g_obs_walk = (strstr(observe, "walk") != NULL);
   g_obs_owner = (strstr(observe, "owner") != NULL);
+  g_obs_abandoned = (strstr(observe, "abandoned") != NULL);
+  if (strstr(observe, "monitor") != NULL) vf_os.monitor = &purge_monitor;
   double deadline = atof(vf_arg(argc, argv, "--deadline", "600"));
   vf_shared_init(deadline);
   if (!vf_verbose) mi_register_output(&vf_out_null, NULL);
@@ -523,10 +598,12 @@ int main(int argc, char** argv) {
     if (strstr(rest, "dirty")) g_dirty = 1;
     if (strstr(rest, "walk")) g_obs_walk = 1;
     if (strstr(rest, "owner")) g_obs_owner = 1;
+    if (strstr(rest, "abandoned")) g_obs_abandoned = 1;
+    if (strstr(rest, "monitor")) vf_os.monitor = &purge_monitor;
   }
   for (size_t i = 0; i < sizeof(profiles) / sizeof(profiles[0]); i++) if (strcmp(profiles[i].name, profname) == 0) g_prof = &profiles[i];
   if (strcmp(g_prof->name, profname) != 0) { fprintf(stderr, "unknown profile %s\n", profname); return 2; }
-  snprintf(vf_cfg, sizeof(vf_cfg), "%s %s%s%s%s", profname, start, g_dirty ? " dirty" : "", g_obs_walk ? " walk" : "", g_obs_owner ? " owner" : "");
+  snprintf(vf_cfg, sizeof(vf_cfg), "%s %s%s%s%s%s", profname, start, g_dirty ? " dirty" : "", g_obs_walk ? " walk" : "", g_obs_owner ? " owner" : "", g_obs_abandoned ? (vf_os.monitor ? " abandoned monitor" : " abandoned") : (vf_os.monitor ? " monitor" : ""));
 
   int saved_depth = vf_depth; vf_depth = 0;
   int r = build_start(start);
